@@ -259,7 +259,8 @@ def rule_recycle_compare(ctx):
     shared.check_can_recycle_compares_roles(ctx, "can_recycle no longer compares {p} on its own: a redefinition with different {p} is recycled with its old state and hash")
     rets = [n for n in ast.walk(cr.node) if isinstance(n, ast.Return)]
     falses = [r for r in rets if isinstance(r.value, ast.Constant) and r.value.value is False]
-    ctx.check(len(falses) == 3 and len(rets) == 4, cr.fq, "three early `return False` and a final comparison", f"{len(falses)} early returns / {len(rets)} returns", "4 comparisons")
+    others = [r for r in rets if r not in falses]
+    ctx.check(len(falses) >= 3 and len(others) == 1 and isinstance(others[0].value, ast.Compare), cr.fq, "the only way to answer True is the final comparison, after every earlier mismatch returned False", f"{len(falses)} `return False`, other returns: {[ast.unparse(r) for r in others][:3]}", "early refusals + one final comparison")
     # what can_recycle does not compare is overwritten from the new declaration, on every path of after_recycle
     ar = ctx.prog.func("step.Step.after_recycle")
     for tr, st in flow.paths_of(ar):
